@@ -186,10 +186,24 @@ def _getter_seq(spec, model):
     import pygaps
     a1 = pygaps.Adsorbate('r1', backend_name='nitrogen')
     a2 = pygaps.Adsorbate('r2', backend_name='nitrogen')
-    getattr(a1, spec['g1'])(70.0)
-    r_hist = getattr(a1, spec['g2'])(90.0)
-    r_fresh = getattr(a2, spec['g2'])(90.0)
-    return {'confirmed': not close(r_hist, r_fresh), 'observed': r_hist, 'expected': r_fresh}
+    bad = []
+    # same and different temperatures, with and without an intervening call (the symbolic paths split on T1 == T2)
+    for (ta, tb, tc) in ((70.0, 90.0, 90.0), (90.0, 90.0, 90.0), (90.0, 70.0, 90.0), (90.0, 100.0, 90.0)):
+        a1 = pygaps.Adsorbate('r1', backend_name='nitrogen')
+        a2 = pygaps.Adsorbate('r2', backend_name='nitrogen')
+        try:
+            if spec.get('third'):
+                getattr(a1, spec['g2'])(ta)
+            getattr(a1, spec['g1'])(tb)
+            r_hist = getattr(a1, spec['g2'])(tc)
+            r_fresh = getattr(a2, spec['g2'])(tc)
+        except Exception as exc:
+            bad.append({'temperatures': (ta, tb, tc), 'error': f"{type(exc).__name__}"})
+            continue
+        if not close(r_hist, r_fresh):
+            bad.append({'calls': ([spec['g2']] if spec.get('third') else []) + [spec['g1'], spec['g2']], 'temperatures': (ta, tb, tc) if spec.get('third') else (tb, tc),
+                        'after_history': r_hist, 'fresh': r_fresh})
+    return {'confirmed': bool(bad), 'observed': bad[:2], 'expected': 'the value a fresh adsorbate object gives'}
 
 
 # ---------------------------------------------------------------------------
